@@ -353,14 +353,18 @@ def _oracle_real_runs(rng, n_runs):
                     s.sample()
                     verify("after commit")
                 # returned to the user
-                out = s.posterior(return_blobs=(mode == "blobs"), return_logw=True)
-                xs, ws, ls = out[0], out[1], out[2]
-                for i in range(len(xs)):
-                    if L1(xs[i]) != ls[i]:
-                        bad.append(f"posterior(): row {i} logl != L(x)")
-                        break
-                    if mode == "blobs" and float(np.ravel(out[3][i])[0]) != float(xs[i][0]) * 2.0 + 1.0:
-                        bad.append(f"posterior(): row {i} blob != blob(x)")
+                for res_, trim_ in ((False, True), (True, True), (True, False), (False, False)):
+                    out = s.posterior(return_blobs=(mode == "blobs"), return_logw=True, resample=res_, trim_importance_weights=trim_)
+                    xs, ws, ls = out[0], out[1], out[2]
+                    where = f"posterior(resample={res_}, trim_importance_weights={trim_})"
+                    for i in range(len(xs)):
+                        if L1(xs[i]) != ls[i]:
+                            bad.append(f"{where}: row {i} logl != L(x)")
+                            break
+                        if mode == "blobs" and float(np.ravel(out[3][i])[0]) != float(xs[i][0]) * 2.0 + 1.0:
+                            bad.append(f"{where}: row {i} blob != blob(x)")
+                            break
+                    if bad:
                         break
         except Exception as e:  # noqa
             # crashes are other properties' business (C18); not a coherence violation
